@@ -68,6 +68,7 @@ type checker struct {
 	// cases that need Flush are skipped so that a deadlocking build does not cost a watchdog per case.
 	flushBroken bool
 	holdBroken  bool
+	cloudBroken bool // a cloud-rounds script got stuck twice: later scripts are skipped
 	concStuck   int
 }
 
@@ -1096,7 +1097,7 @@ func genHold(rng *rand.Rand) holdCase {
 func TestCheck(t *testing.T) {
 	r := mon.Start(t, "C07")
 	defer r.Finish()
-	r.Rule("cases: a family of 2..8 batches of 1..6 datapoints over a tiny key space (1-2 names, 1-2 tags, 2 sources, 4 types, timestamps within 2..6 ticks; three quarters with small integer values and dyadic rates for exact sums, the rest arbitrary floats with 1e-9 tolerance on sampled counts) is aggregated by the real code along: Merge into an empty map in a random permutation, Merge into the first batch, MergeMaps, a random bracketing (tree) of pairwise merges, MetricAggregator.ReceiveMap, re-grouping of the datapoints into 1..6 other batches, consolidator slots filled sequentially via ReceiveMetricMap/ReceiveMetrics then Drain+MergeMaps, the same with two Flushes to a sink, the tag stage's collision merge (all tags dropped), the cloud stage's parking merge; plus consolidators fed by 2..4 concurrent callers with 0..2 concurrent Flushes (race detector on), a forced interleaving where one caller's slot is held at the hook point while Flush/Drain runs, and lagging consumers: 3..6 rounds of (1..4 receives by 1..2 producers, then Flush into a buffered sink, or Drain/DrainWithContext+Fill directly) whose drained slices are only merged after all rounds, or by a consumer goroutine that takes each slice off the sink at once but merges it 1..3 flushes later (gated, or overlapping the producer's next round) - every slice, inspected when it is finally consumed, must hold exactly its own round (unique timer/set ids and a round marker), and the total must be the reference fold. Input maps are rebuilt from the datapoints for every route. Each route is compared with the reference fold of the datapoints (counters add, timer multiset and sampled count, set union, gauge among the values carried at the newest timestamp, newest timestamp). Non-trivial: at least one key occurs in two or more batches with different newest timestamps; distinct by (route, number of batches, types of such keys, largest number of batches sharing a key, position of the newest batch in the merge order).")
+	r.Rule("cases: a family of 2..8 batches of 1..6 datapoints over a tiny key space (1-2 names, 1-2 tags, 2 sources, 4 types, timestamps within 2..6 ticks; three quarters with small integer values and dyadic rates for exact sums, the rest arbitrary floats with 1e-9 tolerance on sampled counts) is aggregated by the real code along: Merge into an empty map in a random permutation, Merge into the first batch, MergeMaps, a random bracketing (tree) of pairwise merges, MetricAggregator.ReceiveMap, re-grouping of the datapoints into 1..6 other batches, consolidator slots filled sequentially via ReceiveMetricMap/ReceiveMetrics then Drain+MergeMaps, the same with two Flushes to a sink, the tag stage's collision merge (all tags dropped), the cloud stage's parking merge; plus consolidators fed by 2..4 concurrent callers with 0..2 concurrent Flushes (race detector on), a forced interleaving where one caller's slot is held at the hook point while Flush/Drain runs, and lagging consumers: 3..6 rounds of (1..4 receives by 1..2 producers, then Flush into a buffered sink, or Drain/DrainWithContext+Fill directly) whose drained slices are only merged after all rounds, or by a consumer goroutine that takes each slice off the sink at once but merges it 1..3 flushes later (gated, or overlapping the producer's next round) - every slice, inspected when it is finally consumed, must hold exactly its own round (unique timer/set ids and a round marker), and the total must be the reference fold. Two stage routes regroup one family several ways: cloud-rounds plays the same 2..7 batches over 1..2 hosts through the real CloudHandler.Run behind a cache that never has an answer ready, in three groupings (all batches parked before any answer; every batch answered before the next, so a host is parked again after its lookup completed; answers interleaved at random), with answers that find an instance (tags and source rewritten) or nothing, waiting for the lookup request on IpSink before each answer and for the expected number of maps downstream after it; tag-stage-scoped sends the same 2..6 batches (2..3 names sharing 3 tags) through a TagHandler with 1..3 mostly name-scoped filters (match-metrics / exclude-metrics on some names, drop-tags, drop-host, drop-metric, optional static tag) as one map, one map per batch and one map per datapoint, and compares every outgoing series by the (name, tags, source) it carries with the fold of the datapoints after the documented filter rules. Input maps are rebuilt from the datapoints for every route. Each route is compared with the reference fold of the datapoints (counters add, timer multiset and sampled count, set union, gauge among the values carried at the newest timestamp, newest timestamp). Non-trivial: at least one key occurs in two or more batches with different newest timestamps; distinct by (route, number of batches, types of such keys, largest number of batches sharing a key, position of the newest batch in the merge order).")
 	r.Assume("ref.Folded / ref.FromMap (harness) are the independent reference; MetricMap.Receive builds the input batches")
 	c := &checker{r: r}
 
@@ -1120,6 +1121,22 @@ func TestCheck(t *testing.T) {
 		cs := genHold(rng)
 		r.Case("hold spots=%d flush=%v preload=%d others=%d", cs.Spots, cs.UseFlush, len(cs.Preload), len(cs.Others))
 		c.hold(cs, exposure)
+	}
+	nCloud := r.N(320, 40000)
+	for i := 0; i < nCloud; i++ {
+		for _, cs := range genCloud(rng) {
+			r.Case("cloud-rounds %s: %s", cs.Grouping, cloudStepsString(cs.Steps))
+			c.cloudRounds(cs)
+		}
+	}
+	nScoped := r.N(1600, 250000)
+	for i := 0; i < nScoped; i++ {
+		for _, cs := range genScoped(rng) {
+			if i%32 == 0 {
+				r.Case("tag-stage-scoped %s filters=%+v static=%q", cs.Grouping, cs.Filters, cs.Static)
+			}
+			c.tagStageScoped(cs)
+		}
 	}
 	nLag := r.N(2400, 400000)
 	for i := 0; i < nLag; i++ {
@@ -1186,6 +1203,19 @@ func replay(t *testing.T, c *checker, p []byte) {
 		mon.ReplayCase(p, &cs)
 		for i := 0; i < 200; i++ {
 			c.runConcurrent(cs)
+		}
+	case "cloud":
+		var cs cloudCase
+		mon.ReplayCase(p, &cs)
+		for i := 0; i < 10; i++ {
+			c.cloudBroken = false
+			c.cloudRounds(&cs)
+		}
+	case "scoped":
+		var cs scopedCase
+		mon.ReplayCase(p, &cs)
+		for i := 0; i < 100; i++ { // map iteration order decides
+			c.tagStageScoped(&cs)
 		}
 	case "lag":
 		var cs lagCase
